@@ -214,6 +214,8 @@ class Model:
         if factor in ("cwd", "environment", "location", "process") and facts.get("no_undeclared_ambient_inputs") is False:
             for pr_ in facts.get("ambient_probes", [])[:4]:
                 why.append(f"{pr_['where']} {pr_['what']}")
+        if factor in ("cwd", "location") and "--configuration" in [str(x) for x in extra] and facts.get("config_files_read_in_given_order") is False:
+            why.append("add_config_files does not read the override files in the order given: " + str(facts.get("config_files_loop")))
         if factor == "hashseed":
             # file order follows the hash-ordered set of nested namespaces; whatever depends on the order depends on the seed
             for l in self.dirty(lang, kind, ["psModelCache", "psUniqueName", "siblings", "psSharedMutable", "psCompileFold"]):
@@ -339,7 +341,7 @@ def make_ambient(scratch):
 
 def run(ctx: common.Ctx):
     info = pr.run_translator(ctx, common.REPO)
-    pr.report_source_facts(ctx, info, ["no_undeclared_ambient_inputs", "file_pp_source_matches_model", "file_pp_calls_pure", "generator_runs_file_pps_once_in_order"])
+    pr.report_source_facts(ctx, info, ["no_undeclared_ambient_inputs", "config_files_read_in_given_order", "file_pp_source_matches_model", "file_pp_calls_pure", "generator_runs_file_pps_once_in_order"])
     drivers = ctx.prove(["C07"], exes=["tpl"])
     drv = drivers.get("tpl")
     ctx.rule = ("paired runs of the real CLI code in fresh interpreters, one ambient factor varied per pair (process, clock [fixed and "
@@ -412,6 +414,11 @@ def run(ctx: common.Ctx):
                 pr.copy_tree(lk, loc / lk.name)
             for lang_ in LANGS:      # a private copy of the built-in templates next to the definitions (relative command line)
                 pr.copy_tree(common.REPO / "src" / "nunavut" / "lang" / lang_ / "templates", loc / "my_templates" / lang_)
+            # two override files that set the same keys (read in the order given: the second wins), in two directory layouts
+            for layout, first_dir in (("cfg", "shared"), ("cfg2", "a_shared")):
+                for sub, fname in ((first_dir, "base.yaml"), ("proj", "override.yaml")):
+                    (loc / layout / sub).mkdir(parents=True, exist_ok=True)
+                    shutil.copy(CFG / "two_files" / fname, loc / layout / sub / fname)
             for fpath in loc.rglob("*"):
                 if fpath.is_file():
                     os.utime(fpath, (T_INPUT, T_INPUT))      # copies carry a fixed, old modification time
@@ -423,7 +430,7 @@ def run(ctx: common.Ctx):
             for oname, extra in (OPTSETS[lang][:nopt] if (ii == 0 or not ctx.quick) else OPTSETS[lang][:1]):
                 cfg = f"{ii}|{lang}|{oname}"
 
-                def add(variant, factor, loc, cwd, hs, ft, step=0.0, cfg=cfg, lang=lang, extra=extra, root=root, lookups=lookups, env=None):
+                def add(variant, factor, loc, cwd, hs, ft, step=0.0, cfg=cfg, lang=lang, extra=extra, root=root, lookups=lookups, env=None, oname=oname):
                     out = loc / f"out_{lang}_{oname.replace('+', '_')}_{variant}"
                     argv = ["--experimental-languages", "-l", lang, "-O", out, loc / root.name]
                     for lk in lookups:
@@ -432,7 +439,9 @@ def run(ctx: common.Ctx):
                     name = f"j{len(jobs)}"
                     jobs.append({"name": name, "runs": [pr.make_run(argv, out, cwd)], "hashseed": hs, "fake_time": ft, "fake_step": step,
                                  "env": ENV1 if env is None else env})
-                    meta[name] = {"cfg": cfg, "variant": variant, "factor": factor, "out": out, "lang": lang, "extra": list(extra),
+                    meta[name] = {"cfg": cfg, "variant": variant, "factor": factor, "out": out, "lang": lang,
+                                  "extra": [str(x).replace(str(loc), "@LOCROOT") for x in extra],
+                                  "cwd_rel": (str(pathlib.Path(cwd).relative_to(loc)) if str(cwd).startswith(str(loc)) else None),
                                   "input": iname, "opt": oname, "hashseed": hs, "fake_time": ft, "fake_step": step, "cwd": str(cwd), "loc": str(loc)}
 
                 add("base", None, locA, scratch / "cwd1", "0", T1)
@@ -456,6 +465,20 @@ def run(ctx: common.Ctx):
                 add("location-rootname-ancestor", "location", locC, scratch / "cwd1", "0", T1)
                 if not lean_cfg:
                     add("location-symlink", "location", links[ii], scratch / "cwd1", "0", T1)
+                if ii == 0 and oname == "default":
+                    # the SAME two override files, given in the SAME order (base, then override), spelled relative to different working
+                    # directories / absolutely / placed in another directory layout at another location
+                    o2 = "cfg-two-files"
+                    c2 = f"{ii}|{lang}|{o2}"
+                    two = lambda a, b: ["--configuration", a, b]
+                    add("base", None, locA, locA / "cfg" / "proj", "0", T1, cfg=c2, oname=o2, extra=two("../shared/base.yaml", "override.yaml"))
+                    add("cwd-relative-spelling", "cwd", locA, locA / "cfg", "0", T1, cfg=c2, oname=o2, extra=two("shared/base.yaml", "proj/override.yaml"))
+                    add("cwd-absolute-spelling", "cwd", locA, scratch / "cwd1", "0", T1, cfg=c2, oname=o2,
+                        extra=two(locA / "cfg" / "shared" / "base.yaml", locA / "cfg" / "proj" / "override.yaml"))
+                    add("location-other-layout", "location", locB, scratch / "cwd1", "0", T1, cfg=c2, oname=o2,
+                        extra=two(locB / "cfg2" / "a_shared" / "base.yaml", locB / "cfg2" / "proj" / "override.yaml"))
+                    add("location-relative-spelling", "location", locC, locC / "cfg2", "0", T1, cfg=c2, oname=o2,
+                        extra=two("a_shared/base.yaml", "proj/override.yaml"))
                 # the same run when it is NOT the first generation in its interpreter (another namespace was generated before it)
                 wi = (ii + 1) % len(inputs)
                 warm = inputs[wi]
@@ -532,8 +555,10 @@ def run(ctx: common.Ctx):
             rel = rels[0]
             where, d = where_of_diff(m["lang"], pathlib.Path(bmeta["out"]) / rel, pathlib.Path(m["out"]) / rel)
             replay = {"input": m["input"], "dsdl": snaps.get(m["input"]), "lang": m["lang"], "options": m["extra"], "factor_varied": m["variant"],
-                      "base": {"hashseed": bmeta["hashseed"], "clock": bmeta["fake_time"], "cwd": bmeta["cwd"], "location": bmeta["loc"]},
-                      "other": {"hashseed": m["hashseed"], "clock": m["fake_time"], "clock_step": m["fake_step"], "cwd": m["cwd"], "location": m["loc"]},
+                      "base": {"hashseed": bmeta["hashseed"], "clock": bmeta["fake_time"], "cwd": bmeta["cwd"], "location": bmeta["loc"],
+                               "cwd_rel": bmeta.get("cwd_rel"), "options": bmeta["extra"]},
+                      "other": {"hashseed": m["hashseed"], "clock": m["fake_time"], "clock_step": m["fake_step"], "cwd": m["cwd"], "location": m["loc"],
+                                "cwd_rel": m.get("cwd_rel"), "options": m["extra"]},
                       "file": rel, "n_differing_files_of_kind": len(rels), "first_differing_line": d,
                       "sha256": [bres["files"].get(rel), res["files"].get(rel)], "model_explanation": why}
             if model is not None and not may:
@@ -583,11 +608,18 @@ def replay(ctx, path):
             lks = [scratch / "links" / "to_in" / l.name for l in lks]
         same_cwd = rp["base"]["cwd"] == rp["other"]["cwd"]
         cwd = scratch / ("cwd1" if (side == "base" or same_cwd) else "cwd2/nested/dir")
+        locroot = loc / "in"
+        for layout, first_dir in (("cfg", "shared"), ("cfg2", "a_shared")):
+            for sub, fname in ((first_dir, "base.yaml"), ("proj", "override.yaml")):
+                (locroot / layout / sub).mkdir(parents=True, exist_ok=True)
+                shutil.copy(CFG / "two_files" / fname, locroot / layout / sub / fname)
+        if cfg.get("cwd_rel"):
+            cwd = locroot / cfg["cwd_rel"]
         cwd.mkdir(parents=True, exist_ok=True)
         ENV1, ENV2 = make_ambient(scratch)
         out = loc / f"out_{side}"
         argv = ["--experimental-languages", "-l", rp["lang"], "-O", out, root] + [x for l in lks for x in ("-I", l)] + \
-            [str(o).replace("@OUT", str(out)) for o in rp["options"]]
+            [str(o).replace("@OUT", str(out)).replace("@LOCROOT", str(locroot)) for o in cfg.get("options", rp["options"])]
         jobs.append({"name": side, "runs": [pr.make_run(argv, out, cwd)], "hashseed": cfg["hashseed"], "fake_time": cfg["clock"],
                      "fake_step": cfg.get("clock_step", 0.0), "env": ENV2 if (side == "other" and var in ("environment", "all")) else ENV1})
         outs[side] = out
